@@ -64,11 +64,23 @@ impl RtpsStatefulWriter {
     }
 
     pub fn is_change_acknowledged(&self, sequence_number: SequenceNumber) -> bool {
+        // Only the changes still in the history can be acknowledged: the ones that were removed
+        // (e.g. their lifespan expired) are not announced by the heartbeats any more, so
+        // waiting for them would never end
+        let Some(highest_remaining_seq_num) = self
+            .changes
+            .iter()
+            .map(|cc| cc.sequence_number)
+            .filter(|sn| *sn <= sequence_number)
+            .max()
+        else {
+            return true;
+        };
         !self
             .matched_readers
             .iter()
             .filter(|rp| rp.reliability() == ReliabilityKind::Reliable)
-            .any(|rp| rp.unacked_changes(Some(sequence_number)))
+            .any(|rp| rp.unacked_changes(Some(highest_remaining_seq_num)))
     }
 
     pub fn add_matched_reader(&mut self, reader_proxy: ReaderProxy) {
